@@ -767,6 +767,30 @@ def m_option_unwrap_or_else(I, fn, st, t, args, depth):
     yield from _opt_map(I, fn, st, t, args, depth, some, none)
 
 
+def m_option_unwrap_or_default(I, fn, st, t, args, depth):
+    import re
+    inst = t["callee"].get("inst") or ""
+    m = re.search(r"Option::<(.+)>::unwrap_or_default$", inst)
+    target = None
+    if m:
+        adt = m.group(1).split("<")[0]
+        cands = [f for p, f in I.F.fns.items() if p.startswith("<" + adt) and p.endswith("as std::default::Default>::default")]
+        if len(cands) == 1:
+            target = cands[0]
+
+    def some(x, cs):
+        yield x, None, cs
+
+    def none(val, cs):
+        if target is not None:
+            for o in I.run(target, [], depth + 1):
+                if o.ret[0] != "diverge":
+                    yield o.ret, None, cs + o.conds
+        else:
+            yield ("call", "Default::default", ()), None, cs
+    yield from _opt_map(I, fn, st, t, args, depth, some, none)
+
+
 def m_option_map_or_else(I, fn, st, t, args, depth):
     def some(x, cs):
         for ret, c2 in I.call_callable(fn, st, args[2], [x], depth):
@@ -948,6 +972,7 @@ MODELS = {
     "std::option::Option::<T>::unwrap_or": m_option_unwrap_or,
     "std::option::Option::<T>::unwrap_or_else": m_option_unwrap_or_else,
     "std::option::Option::<T>::map_or_else": m_option_map_or_else,
+    "std::option::Option::<T>::unwrap_or_default": m_option_unwrap_or_default,
     "std::option::Option::<T>::map_or": m_option_map_or,
     "std::option::Option::<T>::ok_or_else": m_option_ok_or_else,
     "std::option::Option::<T>::ok_or": m_option_ok_or,
